@@ -130,4 +130,29 @@ def contracts():
             ens = ['len(calls) == 0 and result is None']
         c(R + 'switch_case', name='branching.switch_case/%d' % n,
           params=dict(case=TInt, args=thunks(n)), ensures=ens)
+        # examine / selectAllCases: "the actual evaluation is done lazily
+        # as the iterator advances, not during the function call". As a
+        # generator: when the k-th element is emitted exactly the first
+        # (index of that element)+1 predicates have been evaluated. Written
+        # as a plain function: nothing may have been evaluated at return.
+        c(R + 'examine', name='branching.examine/%d' % n,
+          params=dict(args=thunks(n)),
+          ensures=['len(calls) == 0'],
+          gen_form=dict(track_calls=True, ensures=[
+              'len(out) == %d and len(calls) == %d' % (n, n),
+              'forall(range(0, len(out)), lambda k: ycalls[k] == k + 1)'] + [
+              'calls[%d][0] == args[%d].name and '
+              'out[%d] == truthy(calls[%d][2])' % (i, i, i, i)
+              for i in range(n)]))
+        c(R + 'select_all_cases', name='branching.select_all_cases/%d' % n,
+          params=dict(args=thunks(n)), yields=TInt,
+          ensures=['len(calls) == 0'],
+          gen_form=dict(track_calls=True, ensures=[
+              'len(calls) == %d' % n,
+              'forall(range(0, len(out)), lambda k: 0 <= out[k] and '
+              'out[k] < %d and ycalls[k] == out[k] + 1)' % n,
+              'forall(range(1, len(out)), lambda k: out[k - 1] < out[k])'] + [
+              'calls[%d][0] == args[%d].name and '
+              'truthy(calls[%d][2]) == (%d in out)' % (i, i, i, i)
+              for i in range(n)]))
     return cs
